@@ -1,0 +1,35 @@
+//go:build verif
+
+package verifbridge
+
+import (
+	"context"
+
+	icrypto "github.com/nspcc-dev/neofs-node/internal/crypto"
+	neofscrypto "github.com/nspcc-dev/neofs-sdk-go/crypto"
+	protosession "github.com/nspcc-dev/neofs-sdk-go/proto/session"
+	"github.com/nspcc-dev/neofs-sdk-go/user"
+)
+
+// CryptoN3ScriptRunner re-exports [icrypto.N3ScriptRunner].
+type CryptoN3ScriptRunner = icrypto.N3ScriptRunner
+
+// CryptoVerifyRequestSignatures re-exports [icrypto.VerifyRequestSignatures].
+func CryptoVerifyRequestSignatures[B neofscrypto.ProtoMessage](req neofscrypto.SignedRequest[B]) error {
+	return icrypto.VerifyRequestSignatures(req)
+}
+
+// CryptoVerifyRequestSignaturesWithContext re-exports [icrypto.VerifyRequestSignaturesWithContext].
+func CryptoVerifyRequestSignaturesWithContext[B neofscrypto.ProtoMessage](ctx context.Context, req neofscrypto.SignedRequest[B]) error {
+	return icrypto.VerifyRequestSignaturesWithContext(ctx, req)
+}
+
+// CryptoVerifyRequestSignaturesN3 re-exports [icrypto.VerifyRequestSignaturesN3].
+func CryptoVerifyRequestSignaturesN3[B neofscrypto.ProtoMessage](ctx context.Context, req neofscrypto.SignedRequest[B], fsChain icrypto.N3ScriptRunner) error {
+	return icrypto.VerifyRequestSignaturesN3(ctx, req, fsChain)
+}
+
+// CryptoGetRequestAuthor re-exports [icrypto.GetRequestAuthor].
+func CryptoGetRequestAuthor(vh *protosession.RequestVerificationHeader) (user.ID, []byte, error) {
+	return icrypto.GetRequestAuthor(vh)
+}
